@@ -68,7 +68,9 @@ func (e *Engine) background(d *decls) []*Term {
 				continue
 			}
 			iface := it.Underlying().(*types.Interface)
-			for i, t := range tags.types {
+			tagIDs, tagTypes := tags.all()
+			for ti, t := range tagTypes {
+				i := tagIDs[ti] - 1
 				// facts about a concrete type are only needed where its tag occurs literally in the query
 				// (this also keeps the script independent of how many types have been seen so far)
 				if !d.intLits[int64(i+1)] {
@@ -269,17 +271,17 @@ func (e *Engine) solve(o *Obligation, outDir string, idx int, timeoutS int, both
 
 	// on-disk memo of discharged queries: the key is the hash of the complete SMT-LIB script generated from the
 	// current tree, so only a byte-identical query (same code, same contracts, same encoder) is ever reused.
-	// Only `unsat` answers are stored; anything else is solved again.
+	// Only `unsat` answers (and `sat` for reachability queries, which need no model) are stored.
 	cacheFile := ""
 	if dir := diskCacheDir(); dir != "" {
 		cacheFile = filepath.Join(dir, fmt.Sprintf("%x", h[:16]))
 		if b, err := os.ReadFile(cacheFile); err == nil {
-			parts := strings.SplitN(strings.TrimSpace(string(b)), " ", 2)
-			if len(parts) == 2 {
+			parts := strings.SplitN(strings.TrimSpace(string(b)), " ", 3)
+			if len(parts) == 3 && (parts[0] == "unsat" || (parts[0] == "sat" && o.Cover)) {
 				var secs float64
-				fmt.Sscanf(parts[0], "%f", &secs)
-				res.Status, res.Solver, res.Seconds = "unsat", parts[1]+" [memo]", secs
-				res.Detail = res.Solver + ": unsat (memo of an identical query)"
+				fmt.Sscanf(parts[1], "%f", &secs)
+				res.Status, res.Solver, res.Seconds = parts[0], parts[2]+" [memo]", secs
+				res.Detail = res.Solver + ": " + parts[0] + " (memo of an identical query)"
 				scache.mu.Lock()
 				scache.m[h] = res
 				scache.mu.Unlock()
@@ -355,8 +357,9 @@ func (e *Engine) solve(o *Obligation, outDir string, idx int, timeoutS int, both
 		res.Status = final
 	}
 	res.Detail = strings.Join(details, "; ")
-	if cacheFile != "" && res.Status == "unsat" {
-		_ = os.WriteFile(cacheFile, []byte(fmt.Sprintf("%.3f %s\n", res.Seconds, res.Solver)), 0o644)
+	// reachability (cover) queries need only the answer `sat`, no model: they are memoised too
+	if cacheFile != "" && (res.Status == "unsat" || (res.Status == "sat" && o.Cover)) {
+		_ = os.WriteFile(cacheFile, []byte(fmt.Sprintf("%s %.3f %s\n", res.Status, res.Seconds, res.Solver)), 0o644)
 	}
 	scache.mu.Lock()
 	scache.m[h] = res
